@@ -41,6 +41,9 @@ func repoTestTraces(run *evid.Run, props map[string]bool) (conns, events int) {
 	cmd := exec.Command("go", "test", "-tags", "verif", "-count=1", "-vet=off", ".")
 	cmd.Dir = "/repo"
 	if d := os.Getenv("VERIF_REPO"); d != "" {
+		cmd.Dir = d // testing aid, see /verif/check
+	}
+	if d := os.Getenv("VERIF_REPO"); d != "" {
 		cmd.Dir = d
 	}
 	cmd.Env = append(os.Environ(), "VERIF_TRACE_FILE="+tf, "GOFLAGS=-mod=mod", "GOPROXY=off", "GOSUMDB=off", "GOTOOLCHAIN=local")
